@@ -5,7 +5,9 @@
      decoded in (fixed key width, fixed value width, kind of values), which the parent supplies; in an
      intact file every page is reached in exactly one context, so this is the page number, but in a
      damaged file one page can be reached in two contexts with different covered prefixes, and the image
-     must stay single-valued (the correspondence driver encodes the context into the pointer);
+     must stay single-valued (the correspondence driver encodes the context into the pointer, and
+     prefixes the covered prefix with a 13-byte tag naming the context, so that `parse` below is a function
+     of the tagged prefix alone; H of a tagged prefix is the checksum of the untagged bytes);
    * an *image* maps a pointer to the page's COVERED PREFIX: the bytes [0, end) of the page, where
      `end` is `value_end(last pair)` of a leaf / `key_end(last key)` of a branch (exactly the range
      `leaf_checksum` / `branch_checksum` hash), or to None when the pointer lies outside the file's
